@@ -450,30 +450,35 @@ Definition lrv_marshal (e : lrv) : option bytes :=
     end
   else Some (string_bytes v).
 
-(* the loop of the map branch of NaturalLanguageValues.MarshalJSON: (buffer, empty) *)
-Definition nlv_map_step (key_for_nil : bool) (st : bytes * bool) (e : lrv) : bytes * bool :=
-  let '(b, empty) := st in
+(* the loop of the map branch of NaturalLanguageValues.MarshalJSON: (buffer, empty, keys written so far).
+   [dedup] (fix 05721dc): of several values whose tags are WRITTEN alike the first is kept - a JSON object holds one
+   value per member name; entries with an empty tag or an empty text are skipped before the key is registered *)
+Definition nlv_map_step (key_for_nil dedup : bool) (st : bytes * bool * list bytes) (e : lrv) : bytes * bool * list bytes :=
+  let '(b, empty, keys) := st in
   let '(ref, v) := e in
-  if Nat.eqb (length ref) 0 || Nat.eqb (length v) 0 then (b, empty)
+  if Nat.eqb (length ref) 0 || Nat.eqb (length v) 0 then (b, empty, keys)
+  else if dedup && existsb (bytes_eqb (string_bytes ref)) keys then (b, empty, keys)
   else
+    let keys := if dedup then keys ++ [string_bytes ref] else keys in
     let b := if empty then b else b ++ [bCM] in
     let b := if key_for_nil && bytes_eqb ref NilRef then b ++ string_bytes ref ++ [bCO] else b in
     match lrv_marshal e with
-    | Some w => match w with [] => (b, empty) | _ => (b ++ w, false) end
-    | None => (b, empty)
+    | Some w => match w with [] => (b, empty, keys) | _ => (b ++ w, false, keys) end
+    | None => (b, empty, keys)
     end.
 
 (* NaturalLanguageValues.MarshalJSON; None = (nil, nil).
    [pre_unescape]: the pinned tree ran unescape() over a single value before escaping it;
    [key_for_nil]: the pinned tree left out the key of the default language inside a map (repaired in the
    repository by the commit with subject 'fix: a language map wrote entries without a language tag as bare
-   strings', made for C01/C05; the C06 fixes are the other four). *)
-Definition nlv_marshal_gen (pre_unescape key_for_nil : bool) (l : nl) : option bytes :=
+   strings', made for C01/C05; the C06 fixes are the other four);
+   [dedup]: see nlv_map_step. *)
+Definition nlv_marshal_gen (pre_unescape key_for_nil dedup : bool) (l : nl) : option bytes :=
   match l with
   | [] => None
   | _ =>
       let map_form :=
-        let '(b, empty) := fold_left (nlv_map_step key_for_nil) l ([bLB], true) in
+        let '(b, empty, _) := fold_left (nlv_map_step key_for_nil dedup) l ([bLB], true, []) in
         if empty then None else Some (b ++ [bRB]) in
       match l with
       | [(_, v)] =>
@@ -484,8 +489,10 @@ Definition nlv_marshal_gen (pre_unescape key_for_nil : bool) (l : nl) : option b
       | _ => map_form
       end
   end.
-Definition nlv_marshal : nl -> option bytes := nlv_marshal_gen false true.
-Definition nlv_marshal_pinned : nl -> option bytes := nlv_marshal_gen true false.
+Definition nlv_marshal : nl -> option bytes := nlv_marshal_gen false true true.
+Definition nlv_marshal_pinned : nl -> option bytes := nlv_marshal_gen true false false.
+(* the tree before fix 05721dc: every entry written, a repeated tag repeats the member name *)
+Definition nlv_marshal_nodedup : nl -> option bytes := nlv_marshal_gen false true false.
 
 (* JSONWriteComma *)
 Definition json_write_comma (b : bytes) : bytes :=
